@@ -53,7 +53,12 @@ func (g *GoFakeS3) routeBase(w http.ResponseWriter, r *http.Request) {
 		return
 	}
 
-	if uploadID := UploadID(query.Get("uploadId")); uploadID != "" {
+	if ids, ok := query["uploadId"]; ok && ids[0] == "" {
+		// An empty upload ID names no upload; it does not make the request a
+		// plain one on the object.
+		err = ErrNoSuchUpload
+
+	} else if uploadID := UploadID(query.Get("uploadId")); uploadID != "" {
 		err = g.routeMultipartUpload(bucket, object, uploadID, w, r)
 
 	} else if _, ok := query["uploads"]; ok {
